@@ -6,7 +6,7 @@ from props.c10 import ref_dec
 
 ID = 'C06'
 COQ_PROPS = ['Props/C06.v']
-COQ_IMPORTS = ['Prims', 'CaseLib', 'BitsCore', 'Mutators', 'Search', 'Golomb', 'Stream']
+COQ_IMPORTS = ['Prims', 'CaseLib', 'BitsCore', 'Mutators', 'Search', 'Golomb', 'Stream', 'LsbPack', 'StreamLsb']
 RULE = ('histories of 3..25 stream operations (reads with every token kind and integer counts incl. 0 and negative, peeks, readlist/peeklist with stretchy tokens, seeks via pos/bytepos/bytealign, '
         'find/rfind/readto, every mutator, property assignment, copies/slices/operators) from random (content, pos) on ConstBitStream and BitStream; (bin, pos, value|exception) compared after every step '
         'with a (bits, pos) reference machine and with the Coq model; every call that returns an object (each operator and its reflected / augmented form with empty, identity, self and stream operands of every '
@@ -197,6 +197,17 @@ def gen_cases(rng, tier):
                'steps': [first] + [gen_step(rng, max(len(bits), 4), cls == 'BitStream') for _ in range(rng.randrange(0, 4))]}
 
     yield from gen_newobj_cases(rng, tier)
+
+    # the same kind of histories with options.lsb0 set (before the stream exists): every step is evaluated on the mode-parametric machine of StreamLsb.v
+    # (step by step: content, position, value or exception); the machine is the judge here, the msb0 str reference does not apply
+    for _ in range(70 if tier == 'quick' else 1500):
+        n = rng.choice([0, 1, 7, 8, 9, 16, 24, 31, 32, 33, 40]) if rng.random() < 0.8 else rng.randrange(0, 90)
+        cls = rng.choice(['ConstBitStream', 'BitStream', 'BitStream'])
+        yield {'op': 'history', 'cls': cls, 'bits': rand_bits(rng, n), 'pos': rng.choice([0, 0, n, rng.randrange(0, n + 1)]), 'opt_lsb0': True, 'machine': True,
+               'steps': [st for st in (gen_step(rng, max(n, 4), cls == 'BitStream') for _ in range(rng.randrange(3, 20))) if st['op'] in LSB0_MACHINE_OPS and 'selfarg' not in st]}
+
+LSB0_MACHINE_OPS = ('read', 'peek', 'readlist', 'peeklist', 'readto', 'setpos', 'setbytepos', 'getbytepos', 'bytealign', 'find', 'rfind', 'append', 'iadd', 'prepend', 'insert', 'overwrite',
+                    'setitem', 'delitem', 'replace', 'clear', 'imul')
 
 def kind(c): return c['cls']
 
@@ -832,11 +843,38 @@ def oracle(c, obs):
             elif r[0] != 'ok': msg = f"{where} raised {r[1]}"
             elif res[1] != NOCHECK and r[1] != res[1]: msg = f"{where} returned {str(r[1])[:150]}, reference gives {str(res[1])[:150]}"
             if not msg and (after[0] != d or after[1] != pos): msg = f"{where} is not a position-moving call but left (bits={after[0]!r}, pos={after[1]})"
+        elif lsb0 and c.get('machine'):
+            # judged by the lsb0 machine (coq_check) and, for the operations that obey it (C12_stream_step_mirror), by the mirror law on the msb0 str reference
+            if r[0] == 'err' and (after[0] != d or after[1] != pos): msg = f"{c['cls']}({d!r}, pos={pos}, lsb0) {st} raised {r[1]} but changed the state to {after[:2]}"
+            else: msg = judge_step_mirror(c, st, d, pos, r, after)
         else:
             msg = judge_step(c, st, d, pos, r, after)
         if msg: return msg
         if kept_obs is not None and [list(x) for x in kept_obs] != K:
             return f"{c['cls']}({d!r}, pos={pos}) {st}: stream objects returned by earlier calls are now at (bits, pos) = {kept_obs}, they were left at {K}: a call on one object moved / changed another"
+    return None
+
+def judge_step_mirror(c, st, d, pos, r, after):
+    """lsb0 step on (d, pos) = mirror of the msb0 step with reversed bitstring operands on (reversed d, pos): reversed content, same position, same exception
+    (not for reads of exp-Golomb tokens, refused under lsb0, nor for integer slice assignment, whose integer is encoded in stored order); values of reads are
+    left to the machine, position-valued results (find, rfind, replace count, bytealign) are the same numbers"""
+    op = st['op']
+    toks = st.get('toks', [st['tok']] if 'tok' in st else [])
+    if any(isinstance(t, dict) and 'c' in t for t in toks): return None
+    if op == 'setitem' and 'int' in st.get('val', {}): return None
+    m = dict(st)
+    for k in ('bs', 'pat', 'old', 'new'):
+        if isinstance(m.get(k), str): m[k] = m[k][::-1]
+    if op == 'setitem' and 'bits' in m.get('val', {}): m['val'] = {'bits': m['val']['bits'][::-1]}
+    d2, p2, res = ref_step(c['cls'], d[::-1], pos, m)
+    if res[0] == 'any': return None
+    where = f"{c['cls']}({d!r}, pos={pos}, lsb0) {st}"
+    if res[0] == 'err':
+        if r[0] != 'err' or r[1] not in res[1]: return f"{where} should raise {sorted(res[1])} (as the mirrored msb0 call does), got {str(r)[:150]}"
+        return None
+    if r[0] != 'ok': return f"{where} raised {r[1]}; the mirrored msb0 call succeeds with state ({d2[::-1]!r}, {p2})"
+    if after[0] != d2[::-1] or after[1] != p2: return f"{where} left (bits={after[0]!r}, pos={after[1]}); the mirror of the msb0 call on the reversed data gives (bits={d2[::-1]!r}, pos={p2})"
+    if op in ('find', 'rfind', 'replace', 'bytealign', 'getbytepos') and r[1] != res[1]: return f"{where} returned {r[1]}, the mirrored msb0 call returns {res[1]}"
     return None
 
 def judge_step(c, st, d, pos, r, after):
@@ -891,7 +929,8 @@ def cval(v):
     return 'ValNone'
 def cerr(r): return f"(Err {r[1] if r[1] in COQ_EXNS else 'AssertionError'})"
 
-def coq_step(cls, st, before, r, after):
+def coq_step(cls, st, before, r, after, lsb0=False):
+    if lsb0: return coq_step_lsb0(cls, st, before, r, after)
     same = cbool(st.get('selfarg') == 'bs')
     st = resolve_self(st, before[0])
     op = st['op']
@@ -939,13 +978,61 @@ def coq_step(cls, st, before, r, after):
     if op == 'imul': return f"chk unit_eqb (st_imul {S} {cz(st['n'])}) {A} {unit}"
     return None
 
+def coq_step_lsb0(cls, st, before, r, after):
+    """the same step on the machine of StreamLsb.v with the option on"""
+    st = resolve_self(st, before[0])
+    op = st['op']
+    S = f"(mkstream {cbits(before[0])} {cz(before[1])})"
+    A = f"{cbits(after[0])} {cz(after[1])}"
+    unit = "(Ok tt)" if r[0] == 'ok' else cerr(r)
+    if r[0] == 'err' and r[1] not in COQ_EXNS: return None
+    if op in ('read', 'peek', 'readlist', 'peeklist') and 'zhex' in json.dumps(r[1]): return None
+    if op in ('read', 'peek'):
+        exp = f"(Ok {cval(r[1])})" if r[0] == 'ok' else cerr(r)
+        return f"chk value_eqb ({op}_token_m true {S} {ctok(st['tok'])}) {A} {exp}"
+    if op in ('readlist', 'peeklist'):
+        if any(isinstance(t, dict) and t.get('k') == 'bool' and 'n' not in t for t in st['toks']): return None
+        exp = f"(Ok {clist(r[1], cval)})" if r[0] == 'ok' else cerr(r)
+        return f"chk (list_eqb value_eqb) ({op}_m true {S} {clist(st['toks'], ctok)}) {A} {exp}"
+    if op == 'readto':
+        exp = f"(Ok {cbits(r[1][1])})" if r[0] == 'ok' else cerr(r)
+        if r[0] == 'err' and not st['pat']: return None
+        return f"chk bits_eqb (readto_m true {S} {cbits(st['pat'])} {cbool(bool(st['ba']))}) {A} {exp}"
+    if op == 'setpos': return f"chk unit_eqb (set_pos {S} {cz(st['p'])}) {A} {unit}"
+    if op == 'setbytepos': return f"chk unit_eqb (set_bytepos {S} {cz(st['p'])}) {A} {unit}"
+    if op == 'getbytepos': return f"res_eqb Z.eqb (get_bytepos {S}) {('(Ok ' + cz(r[1]) + ')') if r[0] == 'ok' else cerr(r)}"
+    if op == 'bytealign': return f"chk Z.eqb (bytealign {S}) {A} {('(Ok ' + cz(r[1]) + ')') if r[0] == 'ok' else cerr(r)}"
+    if op in ('find', 'rfind'):
+        exp = f"(Ok {cob(r[1][0] if r[1] else None)})" if r[0] == 'ok' else cerr(r)
+        return f"chk (opt_eqb Z.eqb) (st_{op} true {S} {cbits(st['pat'])} {cob(st['start'])} None {cbool(bool(st['ba']))}) {A} {exp}"
+    if cls == 'ConstBitStream' and op in ('append', 'iadd', 'overwrite'): return None
+    if op in ('append', 'iadd'): return f"chk unit_eqb (st_append_m true {S} {cbits(st['bs'])}) {A} {unit}"
+    if op == 'prepend': return f"chk unit_eqb (st_prepend_m true {S} {cbits(st['bs'])}) {A} {unit}"
+    if op == 'insert': return f"chk unit_eqb (st_insert_m true {S} {cbits(st['bs'])} {cob(st['pos'])}) {A} {unit}"
+    if op == 'overwrite': return f"chk unit_eqb (st_overwrite_m true {S} false {cbits(st['bs'])} {cob(st['pos'])}) {A} {unit}"
+    if op == 'setitem':
+        k, v = st['key'], st['val']
+        V = f"(VBits {cbits(v['bits'])})" if 'bits' in v else f"(VInt {cz(v['int'])})"
+        if isinstance(k, list): return f"chk unit_eqb (st_setitem_slice_m true {S} {cslice(*k)} {V}) {A} {unit}"
+        return f"chk unit_eqb (st_setitem_int_m true {S} {cz(k)} {V}) {A} {unit}"
+    if op == 'delitem':
+        k = st['key']
+        if isinstance(k, list): return f"chk unit_eqb (st_delitem_slice_m true {S} {cslice(*k)}) {A} {unit}"
+        return f"chk unit_eqb (st_delitem_int_m true {S} {cz(k)}) {A} {unit}"
+    if op == 'replace':
+        exp = f"(Ok {cz(r[1])})" if r[0] == 'ok' else cerr(r)
+        return f"chk Z.eqb (st_replace_m true {S} {cbits(st['old'])} {cbits(st['new'])} None None {cob(st['count'])} {cbool(bool(st.get('ba_eff')))}) {A} {exp}"
+    if op == 'clear': return f"chk unit_eqb (st_clear {S}) {A} {unit}"
+    if op == 'imul': return f"chk unit_eqb (st_imul_m true {S} {cz(st['n'])}) {A} {unit}"
+    return None
+
 def coq_check(c, obs):
     terms = []
-    if c.get('opt_lsb0'): return None              # the stream machine of Stream.v is the msb0 one
+    if c.get('opt_lsb0') and not c.get('machine'): return None              # kept-object histories: judged by the str reference only
     for st, tr in zip(c['steps'], obs[1]):
         before, r, after = tr[:3]
         if st['op'] in ('newobj', 'usekept', 'pure'): continue
-        t = coq_step(c['cls'], eff(c, st), before, r, after)
+        t = coq_step(c['cls'], eff(c, st), before, r, after, lsb0=bool(c.get('opt_lsb0')))
         if t is not None: terms.append('(' + t + ')')
     return ' && '.join(terms) if terms else None
 
